@@ -3,6 +3,7 @@ CONSTANTS
   K = 3
   MaxT = 2
   Types = {"f"}
+  Lvls = {1}
   EmitMode = "cfg"
 INVARIANTS TypeOK OutSorted OutPrefix Complete FromInput SingleType WithinGroup Collapsed
 ACTION_CONSTRAINT Emit
